@@ -79,7 +79,7 @@ fn scenarios(thorough: bool) -> Vec<Scenario> {
 
 /// What a user sees, without fresh material: configuration and entitlement
 /// views per CA, key-state kinds, and the relying-party payloads.
-fn observable(w: &World) -> Value {
+pub fn observable(w: &World) -> Value {
     let cm = w.krill.ca_manager();
     let mut cas = serde_json::Map::new();
     let mut hs = cm.ca_handles().unwrap_or_default();
